@@ -274,6 +274,7 @@ class MultiTanProcessor(object):
 
     def _tile_parallel(self, pio, cli_progress, parallel, **kwargs):
         import multiprocessing as mp
+        from .par_util import check_worker_exit_codes
 
         # Start up the workers
 
@@ -304,6 +305,8 @@ class MultiTanProcessor(object):
 
         for w in workers:
             w.join()
+
+        check_worker_exit_codes(workers)
 
 
 def _mp_tile_worker(queue, done_event, pio, _kwargs):
